@@ -24,7 +24,9 @@ import (
 	"net"
 	"net/http"
 	"net/http/httptest"
+	"flag"
 	"os"
+	"os/exec"
 	"path/filepath"
 	"runtime"
 	"sort"
@@ -198,6 +200,7 @@ func (cf c19Conf) nclass() string {
 // at their instants; the clock ends at c19DumpAt.
 func c19Populate(cf c19Conf, mainID int, args *Args) (*Cache, *c19Up, int) {
 	c := NewCache(args, Opts{})
+	c19Yield() // the plugin's background goroutines (sweeper, dump loop) start now
 	u := &c19Up{mainID: mainID}
 	u.answer = func(q *dns.Msg) *dns.Msg {
 		var i int
@@ -425,6 +428,7 @@ func c19RunRoundtrip(in c19RtIn, verbose bool) c19Verdict {
 		id, _ := vs.CurThread()
 		args := func() *Args { return &Args{Size: 1024, LazyCacheTTL: cf.Lazy} }
 		a, u, ops := c19Populate(cf, id, args())
+		defer a.Close()
 		v.Ops += int64(ops)
 		code, dump := c19Get(a)
 		v.Ops++
@@ -443,6 +447,8 @@ func c19RunRoundtrip(in c19RtIn, verbose bool) c19Verdict {
 			c19Yield()
 		}
 		b := NewCache(args(), Opts{})
+		c19Yield() // the plugin's background goroutines (sweeper, dump loop) start now
+		defer b.Close()
 		code, body := c19Post(b, dump)
 		v.Ops++
 		if code != 200 {
@@ -546,8 +552,6 @@ func c19RunRoundtrip(in c19RtIn, verbose bool) c19Verdict {
 			}
 			v.Outcomes["roundtrip/"+p.lbl+"/"+form(ha, sa)]++
 		}
-		a.Close()
-		b.Close()
 	})
 	if x.Panic != "" {
 		v.Sig, v.Desc = "roundtrip/panic", x.Panic
@@ -574,6 +578,7 @@ func c19LoadAt(at time.Duration, lazy int, data []byte) c19Load {
 	x := vs.Run1(c19Cfg, func() {
 		vs.Advance(at)
 		c := NewCache(&Args{Size: 1024, LazyCacheTTL: lazy}, Opts{})
+		c19Yield() // the plugin's background goroutines (sweeper, dump loop) start now
 		var m0, m1 runtime.MemStats
 		runtime.ReadMemStats(&m0)
 		r.Status, r.Body = c19Post(c, data)
@@ -651,6 +656,8 @@ type c19FileIn struct {
 	File     string  `json:"file_b64,omitempty"`
 	Intact   string  `json:"intact_b64,omitempty"`
 	K        int     `json:"k"`
+	Mask     int     `json:"mask,omitempty"`
+	DumpPath string  `json:"dump_path,omitempty"` // progress marker only: where the child left the intact dump
 }
 
 func c19B64(b []byte) string {
@@ -875,6 +882,11 @@ func c19RunDumpFile(dir string, lazy int, res *vr.Result, viol func(sig, desc st
 	x := vs.Run1(c19Cfg, func() {
 		id, _ := vs.CurThread()
 		a := NewCache(&Args{Size: 1024, LazyCacheTTL: lazy, DumpFile: path, DumpInterval: 60}, Opts{})
+		c19Yield() // the plugin's background goroutines (sweeper, dump loop) start now
+		defer func() {
+			a.args.DumpFile = "" // no dump on close: the crash-point enumeration below owns the file
+			a.Close()
+		}()
 		u := &c19Up{mainID: id, always: true}
 		u.answer = func(q *dns.Msg) *dns.Msg {
 			var i int
@@ -906,6 +918,8 @@ func c19RunDumpFile(dir string, lazy int, res *vr.Result, viol func(sig, desc st
 		// restart: a second instance with the same dump_file must serve what the first one serves
 		u.answer, u.always = nil, false
 		bb := NewCache(&Args{Size: 1024, LazyCacheTTL: lazy}, Opts{})
+		c19Yield() // the plugin's background goroutines (sweeper, dump loop) start now
+		defer bb.Close()
 		bb.args.DumpFile = path
 		if err := bb.loadDump(); err != nil {
 			viol("dumpfile/load-failed", "loading the periodic dump failed: "+err.Error(), nil)
@@ -936,9 +950,6 @@ func c19RunDumpFile(dir string, lazy int, res *vr.Result, viol func(sig, desc st
 				res.Outcome("dumpfile/restart/" + map[bool]string{true: "served", false: "miss"}[ha])
 			}
 		}
-		a.args.DumpFile = "" // no dump on close: the crash-point enumeration below owns the file
-		a.Close()
-		bb.Close()
 	})
 	if x.Panic != "" {
 		viol("dumpfile/panic", x.Panic, nil)
@@ -965,6 +976,7 @@ func c19RunDumpFile(dir string, lazy int, res *vr.Result, viol func(sig, desc st
 		x := vs.Run1(c19Cfg, func() {
 			vs.Advance(dumpedAt)
 			c := NewCache(&Args{Size: 1024, LazyCacheTTL: lazy}, Opts{})
+			c19Yield() // the plugin's background goroutines (sweeper, dump loop) start now
 			c.args.DumpFile = p2
 			lerr = c.loadDump()
 			c.args.DumpFile = ""
@@ -1056,7 +1068,127 @@ func c19Replay(t *testing.T, raw json.RawMessage) {
 	}
 }
 
+// ---------------------------------------------------------------------------
+// supervisor: the enumeration runs in a child process of the same test binary so
+// that a fatal runtime error of a load (out of memory, stack overflow: not
+// recoverable in-process) is reported as a violation with the input that was
+// being loaded, not as a crash of the check.
+
+var c19MarkFile *os.File
+var c19MarkLen int
+
+// c19Mark records the input that is about to be loaded (child process only).
+func c19Mark(in any) {
+	if c19MarkFile == nil {
+		return
+	}
+	b, _ := json.Marshal(in)
+	b = append(b, '\n')
+	n := len(b)
+	for len(b) < c19MarkLen {
+		b = append(b, ' ')
+	}
+	c19MarkLen = n
+	c19MarkFile.WriteAt(b, 0)
+}
+
+func c19Supervise(t *testing.T) {
+	dir := t.TempDir()
+	mark := filepath.Join(dir, "mark.json")
+	timeout := 30 * time.Minute
+	if f := flag.Lookup("test.timeout"); f != nil {
+		if d, err := time.ParseDuration(f.Value.String()); err == nil && d > time.Minute {
+			timeout = d - 30*time.Second
+		}
+	}
+	cmd := exec.Command(os.Args[0], "-test.run", "^TestVerifC19$", "-test.timeout", timeout.String(), "-test.v")
+	cmd.Env = append(os.Environ(), "VERIF_C19_CHILD=1", "VERIF_C19_MARK="+mark, "VERIF_C19_DIR="+dir)
+	outp := filepath.Join(dir, "child.txt")
+	of, err := os.Create(outp)
+	if err != nil {
+		t.Fatal(err)
+	}
+	cmd.Stdout, cmd.Stderr = of, of
+	runErr := cmd.Run()
+	of.Close()
+	out, _ := os.ReadFile(outp)
+	if len(out) > 1<<16 {
+		fmt.Printf("%s\n...\n%s\n", out[:1<<15], out[len(out)-(1<<15):])
+	} else {
+		fmt.Printf("%s\n", out)
+	}
+	if runErr == nil {
+		return
+	}
+	i := bytes.Index(out, []byte("fatal error:"))
+	if i < 0 || bytes.Contains(out, []byte("INFRA:")) {
+		t.Fatalf("child process failed: %v", runErr)
+	}
+	fatal := string(out[i:min(len(out), i+400)])
+	kind := "other"
+	switch {
+	case strings.Contains(fatal, "out of memory"):
+		kind = "out-of-memory"
+	case strings.Contains(fatal, "stack"):
+		kind = "stack-overflow"
+	}
+	// the input that was being loaded
+	var in c19FileIn
+	var inAny any
+	if mb, err := os.ReadFile(mark); err == nil {
+		if j := bytes.IndexByte(mb, '\n'); j >= 0 {
+			mb = mb[:j]
+		}
+		if json.Unmarshal(mb, &in) == nil && in.Scenario != "" && in.Scenario != "roundtrip" {
+			if in.DumpPath != "" {
+				if d, err := os.ReadFile(in.DumpPath); err == nil {
+					in.Intact = c19B64(d)
+					switch in.Scenario {
+					case "trunc":
+						in.File = c19B64(d[:in.K])
+					case "flip":
+						m := append([]byte(nil), d...)
+						m[in.K] ^= byte(in.Mask)
+						in.File = c19B64(m)
+					}
+				}
+				in.DumpPath = ""
+			}
+			inAny = in
+		} else {
+			var raw map[string]any
+			json.Unmarshal(mb, &raw)
+			inAny = raw
+		}
+	}
+	fam := in.Scenario
+	if fam == "" {
+		fam = "load"
+	}
+	sig := fam + "/fatal-" + kind
+	desc := fmt.Sprintf("the process died with an unrecoverable runtime error while loading a %s input (%s, byte %d): %s", fam, in.Name, in.K, strings.SplitN(fatal, "\n\n", 2)[0])
+	if _, ok := vr.ReplayInput(); ok {
+		fmt.Printf("REPLAY-VIOLATION property=C19 sig=%s\n  %s\n", sig, desc)
+		return
+	}
+	e := vr.GetEnv()
+	res := vr.New("C19", e)
+	res.Rule = "child process died: see violation"
+	res.Exhaustive = false
+	res.Evaluations = 1
+	res.Notes = append(res.Notes, "the enumerating child process died with a fatal runtime error; counts of this shard are lost")
+	res.ViolateInput(sig, desc, inAny)
+	res.Write(e)
+}
+
 func TestVerifC19(t *testing.T) {
+	if os.Getenv("VERIF_C19_CHILD") == "" {
+		c19Supervise(t)
+		return
+	}
+	if p := os.Getenv("VERIF_C19_MARK"); p != "" {
+		c19MarkFile, _ = os.OpenFile(p, os.O_CREATE|os.O_WRONLY|os.O_TRUNC, 0o600)
+	}
 	e := vr.GetEnv()
 	if raw, ok := vr.ReplayInput(); ok {
 		c19Replay(t, raw)
@@ -1156,6 +1288,7 @@ func TestVerifC19(t *testing.T) {
 				continue
 			}
 			in := c19RtIn{Scenario: "roundtrip", Conf: cf, DeltaNs: int64(d)}
+			c19Mark(in)
 			v := c19RunRoundtrip(in, false)
 			res.Evaluations += v.Evals
 			res.Transitions += v.Ops
@@ -1222,8 +1355,13 @@ func TestVerifC19(t *testing.T) {
 					continue
 				}
 				res.States += int64(len(intact))
+				dumpPath := filepath.Join(os.Getenv("VERIF_C19_DIR"), fmt.Sprintf("dump_%d.bin", dunit))
+				if c19MarkFile != nil {
+					os.WriteFile(dumpPath, dump, 0o600)
+				}
 				if job == "trunc" {
 					for k := 0; k < len(dump) && !expired(); k++ {
+						c19Mark(c19FileIn{Scenario: "trunc", Name: "prefix", Conf: cf, AtNs: int64(c19DumpAt), K: k, DumpPath: dumpPath})
 						o, sig, desc, infra := c19CheckTrunc(cf, dump, k, intact, starts, total)
 						res.Evaluations++
 						res.Transitions++
@@ -1260,6 +1398,7 @@ func TestVerifC19(t *testing.T) {
 				try := func(i int, mask byte, fam string) {
 					copy(mut, dump)
 					mut[i] ^= mask
+					c19Mark(c19FileIn{Scenario: fam, Name: region(i), Conf: cf, AtNs: int64(c19DumpAt), K: i, Mask: int(mask), DumpPath: dumpPath})
 					o, sig, desc, infra := c19CheckFile(fam, region(i), c19DumpAt, cf.Lazy, mut, intact)
 					res.Evaluations++
 					res.Transitions++
@@ -1270,7 +1409,7 @@ func TestVerifC19(t *testing.T) {
 						res.Outcome(o)
 					}
 					if sig != "" {
-						viol(sig, desc, c19FileIn{Scenario: fam, Name: region(i), Conf: cf, AtNs: int64(c19DumpAt), File: c19B64(mut), Intact: c19B64(dump), K: i})
+						viol(sig, desc, c19FileIn{Scenario: fam, Name: region(i), Conf: cf, AtNs: int64(c19DumpAt), File: c19B64(mut), Intact: c19B64(dump), K: i, Mask: int(mask)})
 					}
 				}
 				if flipAll[n] {
@@ -1295,6 +1434,7 @@ func TestVerifC19(t *testing.T) {
 	// ---- all files of length <= 2
 	res.Bounds["tiny"] = "all files of length 0, 1 and 2"
 	tiny := func(data []byte) {
+		c19Mark(c19FileIn{Scenario: "tiny", Name: "tiny", AtNs: int64(c19DumpAt), File: c19B64(data)})
 		o, sig, desc, infra := c19CheckFile("tiny", fmt.Sprintf("len%d", len(data)), c19DumpAt, 0, data, nil)
 		res.Evaluations++
 		res.Transitions++
@@ -1333,6 +1473,7 @@ func TestVerifC19(t *testing.T) {
 			continue
 		}
 		data := a.Data()
+		c19Mark(c19FileIn{Scenario: "adv", Name: a.Name, AtNs: int64(c19DumpAt)})
 		o, sig, desc, infra := c19CheckFile("adv", a.Name, c19DumpAt, 0, data, nil)
 		res.Evaluations++
 		res.Transitions++
